@@ -259,6 +259,8 @@ class Spec:
         for k in K:
             m += [('getitem', k), ('get', k), ('getd', k, 'D'), ('del', k), ('pop', k), ('popd', k, 'D'),
                   ('setdefault', k)]
+            # caller defaults that are the very object a key may hold (identity shortcuts such as `ret is default`)
+            m += [('popd', k, 0), ('getd', k, 1)]
             for v in VALUES:
                 m.append(('setdefaultd', k, v))
         m.append(('popitem',))
@@ -311,8 +313,11 @@ class Spec:
         out = []
         for op in self.menu:
             st, ref = self.build(hist)
-            viols, ok, label, st = self.step(st, ref, op, hist)
-            out.append((op, canon(st) if ok else None, label, viols))
+            viols, ok, label, st, ref = self.step(st, ref, op, hist)
+            key = canon(st) if ok else None
+            if ok and not self.probe_check(st, ref, op, hist, viols):
+                key = None
+            out.append((op, key, label, viols))
         return out
 
     def step(self, st, ref, op, hist):
@@ -354,7 +359,17 @@ class Spec:
             ok = self.structure(st, ref, hist + (op,), bad)
         if ok:
             self.battery(st, ref, bad)
-        return V, ok, label, st
+        return V, ok, label, st, ref
+
+    def probe_check(self, st, ref, op, hist, V):
+        """Black-box eviction order of the state just reached.  Destructive (inserts fresh keys), so it runs last, on
+        the object that is discarded anyway."""
+        got = probe(st.c, self.max_size)
+        want = tuple(k for k, _ in ref.order)
+        if got != want:
+            V.append(('C02|op:%s|eviction-order(probe)' % op[0], self.case(hist, op), list(want), got, None, ()))
+            return False
+        return True
 
     def structure(self, st, ref, hist, bad):
         """Ring/dict/lookup agreement and black-box eviction order, on the state reached by hist."""
@@ -370,11 +385,6 @@ class Spec:
             ll = getattr(c, '_link_lookup', None)
             if ll is not None and sorted(ll) != sorted(k for k, _ in want):
                 bad('op', 'link-lookup keys', sorted(k for k, _ in want), sorted(ll)); ok = False
-        # black-box probe on a replayed twin
-        twin, _ = self.build(hist)
-        got = probe(twin.c, self.max_size)
-        if got != tuple(k for k, _ in ref.order):
-            bad('op', 'eviction-order(probe)', [k for k, _ in ref.order], got); ok = False
         return ok
 
     def battery(self, st, ref, bad):
@@ -436,7 +446,7 @@ class Spec:
             c2 = c.copy()
         except Exception as e:
             bad('op', 'result', 'a copy', 'raised ' + type(e).__name__)
-            return V, False, ('copy', type(e).__name__), st
+            return V, False, ('copy', type(e).__name__), st, ref
         label = ('copy', 'ok')
         if type(c2) is not type(c):
             bad('op', 'type', type(c).__name__, type(c2).__name__); ok = False
@@ -452,7 +462,7 @@ class Spec:
         if (c.hit_count, c.miss_count, c.soft_miss_count) != cnt0:
             bad('op', 'source counters changed', cnt0, (c.hit_count, c.miss_count, c.soft_miss_count)); ok = False
         if not ok:
-            return V, False, label, st
+            return V, False, label, st, ref
         st2 = St.__new__(St)
         st2.log, st2.fn, st2.c = st.log, st.fn, c2
         ref2 = ref.copy()
@@ -498,7 +508,7 @@ class Spec:
                             before, canon(w)); ok = False
         if ok:
             self.battery(st2, ref2, bad)
-        return V, ok, label, st2
+        return V, ok, label, st2, ref2
 
 
 # ----------------------------------------------------------------------------------------------------
@@ -538,7 +548,9 @@ def replay(ctx, data):
     msgs = []
     for i in range(len(hist)):
         st, ref = spec.build(tuple(hist[:i]))
-        V, ok, label, _ = spec.step(st, ref, hist[i], tuple(hist[:i]))
+        V, ok, label, st2, ref2 = spec.step(st, ref, hist[i], tuple(hist[:i]))
+        if ok:
+            ok = spec.probe_check(st2, ref2, hist[i], tuple(hist[:i]), V)
         for v in V:
             msgs.append('step %d %r: %s expected=%r observed=%r' % (i, hist[i], v[0], v[2], v[3]))
         if not ok:
